@@ -26,6 +26,9 @@ extern long env_fail_from;              /* fail every tracked allocation with in
 extern long env_failed;                 /* number of allocations failed so far */
 long     env_live(void);                /* tracked allocations still live */
 void     env_live_reset(void);
+int      env_live_sites(void **sites, int max);   /* allocation return addresses of live tracked blocks */
+void    *h_malloc(size_t n);                      /* harness-own allocations: untracked, never failed */
+void    *h_realloc(void *p, size_t n);
 /* hook called at each tracked allocation before deciding (for fork-at-fault) */
 extern int (*env_alloc_hook)(long k);   /* return 1 to fail this allocation */
 
